@@ -9,7 +9,7 @@ import ast
 from ..astutil import attr_path, call_name
 from ..consteval import UNKNOWN
 from ..framework import rule
-from ..miniinterp import Obj, _Raise, run_function
+from ..miniinterp import PyFunc, Obj, _Raise, run_function
 from .common import LX, ckey
 
 PACKETS = ("ReadTagRequestPacket", "ReadTagFragmentedRequestPacket", "WriteTagRequestPacket", "WriteTagFragmentedRequestPacket", "ReadModifyWriteRequestPacket", "MultiServiceRequestPacket")
@@ -1427,30 +1427,25 @@ def d1_19(ctx):
     fn = lx.methods["send"]
     for label, kind_, want in (("fragmented read request", "ReadTagFragmentedRequestPacket", "rf"), ("fragmented write request", "WriteTagFragmentedRequestPacket", "wf"), ("plain read request", "ReadTagRequestPacket", "plain"),
                                ("multi-service request", "MultiServiceRequestPacket", "plain"), ("read-modify-write request", "ReadModifyWriteRequestPacket", "plain")):
-        req = Obj(kind=kind_)
+        # the request is a witness of the real packet class (isinstance is decided on the model's class hierarchy) and the three
+        # senders are witness callables: however `send` spells the dispatch (if-ladder, table of classes and method names, table of
+        # bound methods), the call lands in one of them
+        pci = ctx.model.cls(f"pycomm3.packets.logix:{kind_}")
+        req = Obj(_ci=pci, kind=kind_)
+        me = _me(_send_read_fragmented=PyFunc(lambda r: ("rf", r), "_send_read_fragmented"), _send_write_fragmented=PyFunc(lambda r: ("wf", r), "_send_write_fragmented"))
 
-        def hook(call, env, it, req=req):
-            n = call_name(call) or ""
+        def hook(call, env, it):
             f = call.func
-            if n == "isinstance" and isinstance(f, ast.Name) and len(call.args) == 2 and it.ev(call.args[0], env) is req:
-                names = [ast.unparse(x).split(".")[-1] for x in (call.args[1].elts if isinstance(call.args[1], ast.Tuple) else [call.args[1]])]
-                hier = {"ReadTagFragmentedRequestPacket": {"ReadTagFragmentedRequestPacket", "ReadTagRequestPacket"}, "WriteTagFragmentedRequestPacket": {"WriteTagFragmentedRequestPacket", "WriteTagRequestPacket"}}
-                mine = hier.get(req.kind, {req.kind}) | {"RequestPacket", "SendUnitDataRequestPacket", "TagServiceRequestPacket" if "Tag" in req.kind else ""}
-                return any(x in mine for x in names)
-            if attr_path(f) == "self._send_read_fragmented":
-                return ("rf", it.ev(call.args[0], env))
-            if attr_path(f) == "self._send_write_fragmented":
-                return ("wf", it.ev(call.args[0], env))
             if isinstance(f, ast.Attribute) and f.attr == "send" and isinstance(f.value, ast.Call) and getattr(f.value.func, "id", "") == "super":
                 return ("plain", it.ev(call.args[0], env))
             return UNKNOWN
 
-        kind, res = run_function(ctx, lx.module, fn, {"self": _me(), fn.args.args[1].arg: req}, call_hook=hook, deep=False)
+        kind, res = run_function(ctx, lx.module, fn, {"self": me, fn.args.args[1].arg: req}, call_hook=hook, deep=False)
         key = ckey(lx.key + ".send", f"witness:{label}")
         if kind == "unknown":
             ctx.undecided(key, fn, f"send not foldable on a {label}: {res}")
         else:
-            ctx.check(kind == "return" and res == (want, req), key, fn, f"{label} -> {want}", f"send({label}) gives {kind} {res!r}; expected the request handed to the {want} sender")
+            ctx.check(kind == "return" and isinstance(res, tuple) and len(res) == 2 and res[0] == want and res[1] is req, key, fn, f"{label} -> {want}", f"send({label}) gives {kind} {res!r}; expected the request handed to the {want} sender")
     trs = ctx.model.func(f"{LX}:_tag_return_size")
     dint = ctx.folder.eval(ast.parse("DataTypes['DINT'].size", mode="eval").body, lx.module)
     for label, td, want in (("atomic DINT x 3", {"tag_info": {"tag_type": "atomic", "data_type": "DINT"}, "elements": 3}, (dint or 4) * 3),
@@ -1716,20 +1711,22 @@ def d5_19(ctx):
     # ---- _get_structure_makeup
     asked = []
 
+    requests = []
+
     def gm_hook(call, env, it):
-        # (only the addressed instance is looked at: the reply type is a structure class built at import time)
+        # (the reply type is a structure class built at import time: it is not evaluated; the reply value has its decoded shape)
         if attr_path(call.func) == "self.generic_message":
-            inst = next((it.ev(k.value, env) for k in call.keywords if k.arg == "instance"), None)
+            kw = {k.arg: it.ev(k.value, env) for k in call.keywords if k.arg not in ("data_type", "name")}
+            inst = kw.get("instance")
             asked.append(inst)
-            return _resp(True, value=("attrs", inst), error=None)
+            requests.append(kw)
+            t = templates[inst]
+            value = {"count": 4, "object_definition_size": {"attr_num": 4, "status": 0, "size": t["object_definition_size"]}, "structure_size": {"attr_num": 5, "status": 0, "size": t["structure_size"]},
+                     "member_count": {"attr_num": 2, "status": 0, "count": t["member_count"]}, "structure_handle": {"attr_num": 1, "status": 0, "handle": t["structure_handle"]}}
+            return _resp(True, value=value, error=None)
         return UNKNOWN
 
-    def parse_attrs(call, env, it):
-        if (call_name(call) or "") == "_parse_structure_makeup_attributes":
-            r = it.ev(call.args[0], env)
-            return dict(templates[r.value[1]])
-        return UNKNOWN
-
+    parse_attrs = lambda call, env, it: UNKNOWN  # noqa: E731  (the attribute parser is folded as it stands)
     me = _me(_cache={"id:struct": {}, "handle:id": {}, "id:udt": {}}, _data_types={})
     outs = []
     for iid in (0x100, 0x200, 0x100, 0x300):
@@ -1742,6 +1739,18 @@ def d5_19(ctx):
         want = [("return", templates[i]) for i in (0x100, 0x200, 0x100, 0x300)]
         ctx.check(outs == want and asked == [0x100, 0x200, 0x300] and me._cache["id:struct"] == templates, key, gsm, "each instance asked once, kept under its own id, returned as parsed",
                   f"_get_structure_makeup for instances 0x100, 0x200, 0x100, 0x300 gives {outs!r} after asking {asked!r}; expected each instance's own attributes, asked once each")
+        ev_ = lambda s_: ctx.folder.eval(ast.parse(s_, mode="eval").body, lx.module)  # noqa: E731
+        want_ids = ctx.spec("helpers")["structure_makeup"]["attributes_requested"]
+        want_data = len(want_ids).to_bytes(2, "little") + b"".join(i_.to_bytes(2, "little") for i_ in want_ids)
+        r0 = requests[0] if requests else {}
+        ctx.check(r0.get("request_data") == want_data and r0.get("service") == ev_("Services.get_attribute_list") and r0.get("class_code") == ev_("ClassCode.template_object") and r0.get("connected") is True,
+                  ckey(lx.key + "._get_structure_makeup", "request"), gsm, f"Get Attribute List of attributes {want_ids} on the template object, connected",
+                  f"the template attribute request is {dict((k_, v_) for k_, v_ in r0.items() if k_ in ('service', 'class_code', 'connected', 'request_data'))!r}; expected Get Attribute List, template object, connected, data {want_data.hex()} (count + attributes {want_ids})")
+    # a refused attribute request is an error, not a definition
+    kind, res = run_function(ctx, lx.module, gsm, {"self": _me(_cache={"id:struct": {}, "handle:id": {}, "id:udt": {}}, _data_types={}), gsm.args.args[1].arg: 0x100},
+                             call_hook=lambda call, env, it: _resp(False, value=None, error="Service not supported") if attr_path(call.func) == "self.generic_message" else UNKNOWN, deep=False)
+    if kind != "unknown":
+        ctx.check(kind == "raise" and res == "ResponseError", ckey(lx.key + "._get_structure_makeup", "witness:refused"), gsm, "a refused attribute request raises ResponseError", f"_get_structure_makeup on a refused request gives {kind} {res!r}")
     # ---- _get_data_type
     reads, parses = [], []
 
@@ -1782,6 +1791,65 @@ def d5_19(ctx):
 
 
 # ---------------------------------------------------------------------------------------------------------------- identity objects
+def _ipv4_hook(call, env, it):
+    """The IPv4 address class of the standard library as a witness (a pure function of its argument)."""
+    import ipaddress as _ip
+
+    path = attr_path(call.func) or ""
+    if path in ("ipaddress.IPv4Address", "IPv4Address", "ipaddress.ip_address", "ip_address"):
+        v = it.ev(call.args[0], env)
+        try:
+            a = _ip.IPv4Address(bytes(v) if isinstance(v, (bytes, bytearray)) else v)
+        except (ValueError, TypeError):
+            raise _Raise("ValueError")
+        return Obj(kind="ipv4", exploded=a.exploded, compressed=a.compressed, packed=a.packed, _text=str(a))
+    if (call_name(call) or "") == "str" and len(call.args) == 1:
+        v = it.ev(call.args[0], env)
+        if isinstance(v, Obj) and v.__dict__.get("kind") == "ipv4":
+            return v._text
+    if path in ("socket.inet_ntoa", "inet_ntoa"):
+        return str(_ip.IPv4Address(bytes(it.ev(call.args[0], env))))
+    if path in ("socket.inet_aton", "inet_aton"):
+        return _ip.IPv4Address(it.ev(call.args[0], env)).packed
+    return UNKNOWN
+
+
+
+def _ipaddress_rule(ctx):
+    """The IPAddress codec folded on witnesses: four bytes <-> dotted quad, both ways, exactly four bytes consumed; fewer bytes and
+    text that is no IPv4 address are refused."""
+    from ..miniinterp import Stream, fold_method
+
+    ip = ctx.model.cls("pycomm3.custom_types:IPAddress")
+    cw = Obj(_ci=ip, _is_class=True)
+    for quad in ((10, 20, 30, 40), (0, 0, 0, 0), (255, 255, 255, 255), (192, 168, 1, 100), (1, 2, 3, 4)):
+        text, raw = ".".join(map(str, quad)), bytes(quad)
+        st = Stream(raw + b"\x99")
+        kind, res = fold_method(ctx, cw, "decode", [st], {}, _ipv4_hook)
+        key = ckey(ip.key, f"witness:decode:{text}")
+        if kind == "unknown":
+            ctx.undecided(key, ip.node, f"IPAddress.decode not foldable on {raw.hex()}: {res}")
+        else:
+            ctx.check(kind == "return" and res == text and st.pos == 4, key, ip.node, f"{raw.hex()} -> {text}, four bytes consumed", f"IPAddress.decode({raw.hex()}) gives {kind} {res!r} after {st.pos} byte(s); expected {text!r} after 4")
+        kind, res = fold_method(ctx, cw, "encode", [text], {}, _ipv4_hook)
+        key = ckey(ip.key, f"witness:encode:{text}")
+        if kind == "unknown":
+            ctx.undecided(key, ip.node, f"IPAddress.encode not foldable on {text}: {res}")
+        else:
+            res = bytes(res) if isinstance(res, bytearray) else res
+            ctx.check(kind == "return" and res == raw, key, ip.node, f"{text} -> {raw.hex()}", f"IPAddress.encode({text!r}) gives {kind} {res!r}; expected {raw.hex()}")
+    for label, meth, arg in (("three bytes", "decode", Stream(b"\x0a\x14\x1e")), ("an empty stream", "decode", Stream(b"")), ("text that is no address", "encode", "300.1.1.1"), ("an incomplete address", "encode", "10.0.0")):
+        kind, res = fold_method(ctx, cw, meth, [arg], {}, _ipv4_hook)
+        key = ckey(ip.key, f"witness:refused:{label}")
+        if kind == "unknown":
+            ctx.undecided(key, ip.node, f"IPAddress.{meth} not foldable on {label}: {res}")
+        else:
+            ctx.check(kind == "raise" and res in ("DataError", "BufferEmptyError"), key, ip.node, f"{meth} of {label} is refused", f"IPAddress.{meth} of {label} gives {kind} {res!r} instead of DataError")
+
+
+rule("C16", "D16.11", "T-WITNESS", floor=10)(_ipaddress_rule)
+
+
 def _identity_rule(ctx):
     """The identity structures folded end to end on witness identities (the real codecs of every member are interpreted: the
     structure classes, their named members, Revision, the status bytes, the short string; only the IPv4 address class of the
@@ -1802,25 +1870,6 @@ def _identity_rule(ctx):
     if not (isinstance(vendors, dict) and isinstance(ptypes, dict)):
         ctx.undecided(ckey(mio.key, "witness"), mio.node, "VENDORS / PRODUCT_TYPES are not constant tables")
         return
-
-    def ip_hook(call, env, it):
-        path = attr_path(call.func) or ""
-        if path in ("ipaddress.IPv4Address", "IPv4Address", "ipaddress.ip_address", "ip_address"):
-            v = it.ev(call.args[0], env)
-            try:
-                a = _ip.IPv4Address(bytes(v) if isinstance(v, (bytes, bytearray)) else v)
-            except (ValueError, TypeError):
-                raise _Raise("ValueError")
-            return Obj(kind="ipv4", exploded=a.exploded, compressed=a.compressed, packed=a.packed, _text=str(a))
-        if (call_name(call) or "") == "str" and len(call.args) == 1:
-            v = it.ev(call.args[0], env)
-            if isinstance(v, Obj) and v.__dict__.get("kind") == "ipv4":
-                return v._text
-        if path in ("socket.inet_ntoa", "inet_ntoa"):
-            return str(_ip.IPv4Address(bytes(it.ev(call.args[0], env))))
-        if path in ("socket.inet_aton", "inet_aton"):
-            return _ip.IPv4Address(it.ev(call.args[0], env)).packed
-        return UNKNOWN
 
     unknown_v = next(i for i in range(0xFFFE, 0, -1) if i not in vendors)
     unknown_p = next(i for i in range(0xFFFE, 0, -1) if i not in ptypes)
@@ -1849,7 +1898,7 @@ def _identity_rule(ctx):
                 raw = _st.pack("<HHH", 0x0C, len(raw) + 21, 1) + b"\x00\x02\xaf\x12" + bytes([10, 20, 30, 40]) + bytes(8) + raw + b"\x03"
                 exp = dict({"encap_protocol_version": 1, "ip_address": "10.20.30.40"}, **exp, state=3)
             st = Stream(raw + b"\x99\x99")
-            kind, res = fold_method(ctx, Obj(_ci=ci, _is_class=True), "decode", [st], {}, ip_hook)
+            kind, res = fold_method(ctx, Obj(_ci=ci, _is_class=True), "decode", [st], {}, _ipv4_hook)
             key = ckey(ci.key, f"witness:decode:{label}")
             if kind == "unknown":
                 ctx.undecided(key, ci.node, f"{ci.name}.decode not foldable on {label}: {res}")
@@ -1861,7 +1910,10 @@ def _identity_rule(ctx):
                       f"{ci.name}.decode of the identity '{label}' ({raw.hex()[:80]}...): {kind}, fields that differ (got, encoded) {diff!r}, {st.pos} of {len(raw)} bytes consumed", witness=label)
             if is_list or kind != "return" or f[0] == unknown_v:
                 continue
-            k2, enc = fold_method(ctx, Obj(_ci=ci, _is_class=True), "encode", [dict(exp, revision=dict(exp["revision"]))], {}, ip_hook)
+            given = dict(exp, revision=dict(exp["revision"]))
+            k2, enc = fold_method(ctx, Obj(_ci=ci, _is_class=True), "encode", [given], {}, _ipv4_hook)
+            if k2 == "return" and given != exp:
+                ctx.violation(ckey(ci.key, f"witness:encode-argument:{label}"), ci.node, f"{ci.name}.encode modifies the identity it is given: {given!r} (was {exp!r})")
             key = ckey(ci.key, f"witness:encode:{label}")
             if k2 == "unknown":
                 ctx.undecided(key, ci.node, f"{ci.name}.encode not foldable on {label}: {enc}")
@@ -2064,7 +2116,7 @@ def _segment_rule(ctx):
         kind, res = run_function(ctx, ps.module, fn, {pnames[0]: Obj(_ci=ps, _is_class=True), pnames[1]: Obj(port=port, link_address=link), pnames[2]: False}, call_hook=ip_hook, deep=False)
         res = bytes(res) if isinstance(res, bytearray) else res
         _report(ctx, ckey(ps.key + "._encode", f"witness:{port!r}:{link!r}"), fn, f"port segment {port!r} / {link!r}", (kind, res), ("return", want), "PortSegment._encode")
-    for (port, link), label in (((15, 1), "port 15"), ((0, 1), "port 0"), (("bp", 300), "link 300"), (("bp", "300"), "link '300'"), (("enet", "not-an-address"), "a text link that is no IP address"), (("nonsense", 1), "an unknown port name"), (("enet-b", 1), "a channel suffix on a single-channel port"), (("bp-a", 1), "a channel suffix on the backplane"), (("dhrio", 1), "a two-channel module without its channel"),
+    for (port, link), label in (((15, 1), "port 15"), ((0, 1), "port 0"), ((16, 1), "port 16"), ((17, 1), "port 17 (would set the extended-link bit)"), ((31, 1), "port 31"), ((-1, 1), "port -1"), ((255, 1), "port 255"), (("bp", 300), "link 300"), (("bp", "300"), "link '300'"), (("enet", "not-an-address"), "a text link that is no IP address"), (("nonsense", 1), "an unknown port name"), (("enet-b", 1), "a channel suffix on a single-channel port"), (("bp-a", 1), "a channel suffix on the backplane"), (("dhrio", 1), "a two-channel module without its channel"),
                                 (("enet", "1.2.3"), "an incomplete IP address")):
         kind, res = run_function(ctx, ps.module, fn, {pnames[0]: Obj(_ci=ps, _is_class=True), pnames[1]: Obj(port=port, link_address=link), pnames[2]: False}, call_hook=ip_hook, deep=False)
         key = ckey(ps.key + "._encode", f"refused:{label}")
@@ -2479,6 +2531,50 @@ def _context_rule(ctx):
 
 
 rule("C10", "D10.14", "T-WITNESS", floor=6)(_context_rule)
+def _send_rule(ctx):
+    """CIPDriver.send folded on witness requests (the request's frame builder, the transport and the response class are witness
+    callables): the frame is built once with the connection id the target granted, the session handle, the configured sender
+    context and options; that frame - and nothing else - goes to the transport; a reply is awaited unless the request expects
+    none; the response object is made from the request and the reply; a request that carries an error is not sent at all."""
+    cd = _cd(ctx)
+    fn = cd.methods["send"]
+    for label, err, no_resp in (("ordinary request", None, False), ("request that expects no reply", None, True), ("request that failed to build", "bad tag", False)):
+        built, sent, received = [], [], []
+        me = Obj(_ci=cd, _target_cid=b"TCID", _session=0x1234, _cfg={"context": b"CTX_CTX_", "option": 7}, _sequence="SEQ",
+                 _send=PyFunc(lambda m: sent.append(m), "_send"), _receive=PyFunc(lambda: received.append(1) or b"<reply>", "_receive"))
+        req = Obj(kind="request", error=err, no_response=no_resp)
+        req.build_request = PyFunc(lambda *a, **k: built.append((a, dict(k))) or b"<frame>", "build_request")
+        req.response_class = PyFunc(lambda r, reply: ("response", r, reply), "response_class")
+        kind, res = run_function(ctx, cd.module, fn, {"self": me, fn.args.args[1].arg: req}, deep=False)
+        key = ckey(cd.key + ".send", f"witness:{label}")
+        if kind == "unknown":
+            ctx.undecided(key, fn, f"send not foldable on an {label}: {res}")
+            continue
+        diffs = []
+        if err:
+            if built or sent or received:
+                diffs.append(f"a request carrying an error was built / sent / awaited ({len(built)}, {len(sent)}, {len(received)})")
+            want_reply = None
+        else:
+            a, k = built[0] if len(built) == 1 else ((), {})
+            names = ("target_cid", "session_id", "context", "option")
+            given = dict(zip(names, a))
+            given.update(k)
+            want = {"target_cid": b"TCID", "session_id": 0x1234, "context": b"CTX_CTX_", "option": 7}
+            if len(built) != 1 or {n_: given.get(n_) for n_ in names} != want:
+                diffs.append(f"frame built {len(built)} time(s) with { {n_: given.get(n_) for n_ in names} !r} (expected once with the granted connection id, the session handle, the configured context and options {want!r})")
+            if sent != [b"<frame>"]:
+                diffs.append(f"handed to the transport: {sent!r} (expected the built frame once)")
+            if len(received) != (0 if no_resp else 1):
+                diffs.append(f"{len(received)} reply / replies awaited (expected {0 if no_resp else 1})")
+            want_reply = None if no_resp else b"<reply>"
+        if not (kind == "return" and isinstance(res, tuple) and len(res) == 3 and res[0] == "response" and res[1] is req and res[2] == want_reply):
+            diffs.append(f"result {kind} {res!r} (expected the response class applied to the request and {want_reply!r})")
+        ctx.check(not diffs, key, fn, f"{label}: built, sent and answered as specified", f"CIPDriver.send on an {label}: {diffs[:2]}")
+
+
+rule("C11", "D11.13", "T-WITNESS", floor=3)(_send_rule)
+rule("C10", "D10.15", "T-WITNESS", floor=3)(_send_rule)
 rule("C10", "D10.13", "T-WITNESS", floor=10)(_session_rule)
 rule("C11", "D11.11", "T-WITNESS", floor=10)(_session_rule)
 rule("C10", "D10.11", "T-WITNESS", floor=20)(_close_rule)
